@@ -68,6 +68,10 @@ POSITIONS = {
     'call_argument': _in_fn(lambda b, e: [b.expr_stmt(b.call(b.var('g'), [b.var('a'), e]))]),
     'named_argument': _in_fn(lambda b, e: [b.expr_stmt(b.named_call(b.var('g'), [('k', e)]))]),
     'array_index': _in_fn(lambda b, e: [b.expr_stmt(b.index(b.var('arr'), e))]),
+    'slice_start_only': _in_fn(lambda b, e: [b.expr_stmt(b.slice(b.var('data'), e, None))]),
+    'slice_end_only': _in_fn(lambda b, e: [b.expr_stmt(b.slice(b.var('data'), None, e))]),
+    'slice_both_bounds': _in_fn(lambda b, e: [b.expr_stmt(b.slice(b.var('data'), b.num(1), e))]),
+    'slice_base': _in_fn(lambda b, e: [b.expr_stmt(b.slice(b.index(b.var('arrs'), e), None, b.num(2)))]),
     'array_literal': _in_fn(lambda b, e: [b.expr_stmt(b.array_lit([b.var('a'), e]))]),
     'tuple_component': _in_fn(lambda b, e: [b.expr_stmt(b.list_([b.var('a'), e]))]),
     'ternary_condition': _in_fn(lambda b, e: [b.expr_stmt(b.ternary(fit(b, e, 13), b.var('a'), b.var('d')))]),
@@ -128,7 +132,7 @@ for _k, _v in POSITIONS.items():
         STMT_POSITIONS[_k] = _v.stmts_of
 # positions whose scaffolding changes what a detector must say about the slot expression are handled by the oracle's
 # context (unchecked_block, for_condition); all others are neutral.
-QUICK_POSITIONS = ['statement', 'initialiser', 'if_condition', 'for_condition', 'call_argument', 'power_exponent',
+QUICK_POSITIONS = ['statement', 'slice_start_only', 'slice_end_only', 'initialiser', 'if_condition', 'for_condition', 'call_argument', 'power_exponent',
                    'for_condition_after_conditionless_for', 'for_condition_inside_conditionless_for', 'after_neutral_statements',
                    'prefix_increment_operand', 'unchecked_block', 'unchecked_if_body', 'unchecked_initialiser', 'catch_body', 'try_success_block_without_returns',
                    'call_option_value', 'modifier_argument',
